@@ -149,3 +149,27 @@ Record centry := { ce_name : string; ce_kind : string; ce_file : string; ce_prog
 Definition centry_progs (e : centry) : list cprog := map snd (ce_progs e).
 Definition centry_verdict (e : centry) : cverdict := cache_classify (centry_progs e).
 Definition centry_witness (e : centry) : option (nat * nat * nat * nat) := cache_witness (centry_progs e).
+
+(* ---- many keys: the cache is a dictionary of slots, every thread works on the slot of ITS key ---- *)
+Definition kmem := nat -> slot.
+Definition kupd (m : kmem) (k : nat) (s : slot) : kmem := fun k' => if Nat.eqb k' k then s else m k'.
+Definition kthread := (nat * tstate)%type.        (* (key, state) *)
+
+Fixpoint krun (sched : list nat) (m : kmem) (ts : list kthread) : kmem * list kthread :=
+  match sched with
+  | [] => (m, ts)
+  | i :: r =>
+      match nth_error ts i with
+      | None => krun r m ts
+      | Some (k, t) => let '(s', t') := cstep (m k) t in krun r (kupd m k s') (set_nth ts i (k, t'))
+      end
+  end.
+
+Definition kstart (kps : list (nat * cprog)) : list kthread := map (fun kp => (fst kp, Running (snd kp))) kps.
+
+Definition kresult (cfg : kmem * list kthread) (i : nat) : option cval :=
+  match nth_error (snd cfg) i with Some (_, Done r) => Some r | _ => None end.
+
+(* the view of one key: the threads of other keys are inert *)
+Definition kproj (k : nat) (ts : list kthread) : list tstate :=
+  map (fun kt : kthread => if Nat.eqb (fst kt) k then snd kt else Done CFinal) ts.
